@@ -39,7 +39,7 @@ var admins = []adminT{
 	}, rig.THeartBt},
 }
 
-var damages = []string{"bad-checksum", "bad-length", "non-numeric-body-field", "non-numeric-header-field", "bad-checksum+missing-seqnum", "bad-checksum+non-numeric-seqnum", "bad-length+missing-seqnum", "none(state-not-permitted)", "state-not-permitted+missing-seqnum", "state-not-permitted+non-numeric-seqnum", "non-numeric-seqnum", "empty-seqnum", "empty-numeric-body-field"}
+var damages = []string{"bad-checksum", "bad-length", "non-numeric-body-field", "non-numeric-header-field", "bad-checksum+missing-seqnum", "bad-checksum+non-numeric-seqnum", "bad-length+missing-seqnum", "none(state-not-permitted)", "state-not-permitted+missing-seqnum", "state-not-permitted+non-numeric-seqnum", "non-numeric-seqnum", "empty-seqnum", "empty-numeric-body-field", "checksum-plus-256", "checksum-unpadded-or-signed"}
 
 func damage(kind string, a adminT, m []byte) ([]byte, bool, bool) {
 	// returns message, ok, seqUsable
@@ -76,6 +76,22 @@ func damage(kind string, a adminT, m []byte) ([]byte, bool, bool) {
 		return rig.Reframe(m, map[string]string{rig.TSeq: "7z"}, nil), true, false
 	case "empty-seqnum":
 		return rig.Reframe(m, map[string]string{rig.TSeq: ""}, nil), true, false
+	case "checksum-plus-256", "checksum-unpadded-or-signed":
+		// a CheckSum value that is numerically congruent to, or equal to, the right one but is not the right field
+		cut := bytes.LastIndex(m[:len(m)-1], []byte{1})
+		sum, _ := strconv.Atoi(string(m[cut+4 : len(m)-1]))
+		var v string
+		if kind == "checksum-plus-256" {
+			if sum+256 > 999 {
+				return nil, false, true
+			}
+			v = strconv.Itoa(sum + 256)
+		} else if sum < 100 {
+			v = strconv.Itoa(sum) // without the zero padding
+		} else {
+			v = "+" + strconv.Itoa(sum)
+		}
+		return append(append([]byte(nil), m[:cut+1]...), []byte("10="+v+"\x01")...), true, true
 	case "empty-numeric-body-field":
 		if a.numeric == "" {
 			return nil, false, true
@@ -104,7 +120,7 @@ type cell struct {
 
 func main() {
 	c := vk.Init("C16")
-	c.Rule("matrix: admin type {Logon, Logout, Heartbeat, TestRequest, ResendRequest, a Logon naming other parties / interval / credentials} x damage {wrong checksum, wrong body length, non-numeric body field, non-numeric header field, wrong checksum/length + missing or non-numeric MsgSeqNum, undamaged but not permitted in the state, not permitted in the state and MsgSeqNum missing or non-numeric (correct framing), correct framing with a non-numeric or EMPTY MsgSeqNum value, an EMPTY numeric body field} x session state {waiting, logged on, logged on with the session's own TestRequest pending (real time, N=1; timer Heartbeats/TestRequests are not counted as answers)} x role x position (after 0..3 valid messages) x follow-up valid traffic; plus, over a scripted connection while logged on, every admin type with a CheckSum field whose value is 0, 1, 2, 4 or 5 characters long followed by a valid TestRequest; in every sixth cell two application observers for the message type, registered before Session.Run, are removed in registration order before the invalid message arrives; tag 35 itself is never damaged. Oracle per offending step: exactly one message emitted and it is a Reject with 45 = the offending 34 (or 371 = 34 when 34 is missing/non-numeric); IsLogged unchanged; context not cancelled and handler still running; the following valid message has its normal effect (TestRequest answered when logged on, good Logon accepted when waiting). distinct = matrix cell x position x seqnum; non-trivial = all")
+	c.Rule("matrix: admin type {Logon, Logout, Heartbeat, TestRequest, ResendRequest, a Logon naming other parties / interval / credentials} x damage {wrong checksum, wrong body length, non-numeric body field, non-numeric header field, wrong checksum/length + missing or non-numeric MsgSeqNum, undamaged but not permitted in the state, not permitted in the state and MsgSeqNum missing or non-numeric (correct framing), correct framing with a non-numeric or EMPTY MsgSeqNum value, an EMPTY numeric body field, a CheckSum value 256 above the right one, the right value without zero padding or with a sign} x session state {waiting, logged on, logged on with the session's own TestRequest pending (real time, N=1; timer Heartbeats/TestRequests are not counted as answers)} x role x position (after 0..3 valid messages) x follow-up valid traffic; plus, over a scripted connection while logged on, every admin type with a CheckSum field whose value is 0, 1, 2, 4 or 5 characters long followed by a valid TestRequest; in every sixth cell two application observers for the message type, registered before Session.Run, are removed in registration order before the invalid message arrives; tag 35 itself is never damaged. Oracle per offending step: exactly one message emitted and it is a Reject with 45 = the offending 34 (or 371 = 34 when 34 is missing/non-numeric); IsLogged unchanged; context not cancelled and handler still running; the following valid message has its normal effect (TestRequest answered when logged on, good Logon accepted when waiting). distinct = matrix cell x position x seqnum; non-trivial = all")
 	c.Assume("a message whose only defect is a missing sequence number is not in the statement's list; 'state-not-permitted' cells are: Heartbeat/TestRequest/ResendRequest/Logout while waiting, Logon while logged on")
 	reps := c.Pick(10, 120)
 	var cells []cell
